@@ -23,18 +23,18 @@ def gen_env(table, powers=(1, 1, 1, 1), prefixes=False):
     return {"MCgen.tla": "---- MODULE MCgen ----\nEXTENDS MC_NodeEnv\nP == INSTANCE NodePrefixes\nPowerV == %s\nPropV == %s\nPrefixV == %s\n====\n" %
             (tla_seq(list(powers)), tla_seq(table), "P!All" if prefixes else "<< <<>> >>")}
 
-def cfg_env(me, depth, usedie, maxround=3, maxheight=2, bids='{"A", "X"}', invariants=("C03", "TypeOK", "EvidenceOnlyForEquivocators"), extra=""):
+def cfg_env(me, depth, usedie, maxround=3, maxheight=2, bids='{"A", "X"}', invariants=("C03", "TypeOK", "EvidenceOnlyForEquivocators"), extra="", waittxs=False):
     s = ("SPECIFICATION Spec\nCONSTANTS\n  N = 4\n  Power <- PowerV\n  ProposerOf <- PropV\n  InvalidBids = {\"X\"}\n"
-         "  SkipTimeoutCommit = FALSE\n  Me = %d\n  Bids = %s\n  MyBid = \"M\"\n  MaxRound = %d\n  MaxHeight = %d\n"
-         "  Depth = %d\n  UseDie = %s\n  Prefixes <- PrefixV\nVIEW View\n") % (me, bids, maxround, maxheight, depth, "TRUE" if usedie else "FALSE")
+         "  SkipTimeoutCommit = FALSE\n  WaitForTxs = %s\n  Me = %d\n  Bids = %s\n  MyBid = \"M\"\n  MaxRound = %d\n  MaxHeight = %d\n"
+         "  Depth = %d\n  UseDie = %s\n  Prefixes <- PrefixV\nVIEW View\n") % ("TRUE" if waittxs else "FALSE", me, bids, maxround, maxheight, depth, "TRUE" if usedie else "FALSE")
     for i in invariants:
         s += "INVARIANT %s\n" % i
     return s + extra
 
-def env_walks(c, table, me, num_per_worker, depth, seed, tag, workers=None, maxround=3, maxheight=2, bids='{"A", "X"}', timeout=1500, prefixes=False):
+def env_walks(c, table, me, num_per_worker, depth, seed, tag, workers=None, maxround=3, maxheight=2, bids='{"A", "X"}', timeout=1500, prefixes=False, waittxs=False):
     """Simulation: weighted random walks of the adversarial environment, printed at their end."""
     files = gen_env(table, prefixes=prefixes)
-    files["MCsim.cfg"] = cfg_env(me, depth, True, maxround, maxheight, bids, extra="")
+    files["MCsim.cfg"] = cfg_env(me, depth, True, maxround, maxheight, bids, extra="", waittxs=waittxs)
     dump = os.path.join(c.scratch, "walks-%s.dump" % tag)
     r = c.tlc("node", "MCsim.cfg", module="MCgen", files=files, dump_to=dump, timeout=timeout, workers=workers,
               simulate="num=%d" % num_per_worker, depth=depth + 30, seed=seed, tag=tag)
@@ -44,10 +44,10 @@ def env_walks(c, table, me, num_per_worker, depth, seed, tag, workers=None, maxr
         raise Infra("TLC failed on %s: %s\n%s" % (tag, r.error, c.tlc_tail(r)))
     return dump
 
-def env_bfs(c, table, me, depth, tag, dump=True, maxround=3, bids='{"A", "X"}', timeout=3000, prefixes=False):
+def env_bfs(c, table, me, depth, tag, dump=True, maxround=3, bids='{"A", "X"}', timeout=3000, prefixes=False, waittxs=False):
     """Exhaustive BFS of the adversarial environment to a small depth; every transition printed."""
     files = gen_env(table, prefixes=prefixes)
-    files["MCbfs.cfg"] = cfg_env(me, depth, False, maxround, 2, bids, extra="ACTION_CONSTRAINT Dump\n" if dump else "")
+    files["MCbfs.cfg"] = cfg_env(me, depth, False, maxround, 2, bids, extra="ACTION_CONSTRAINT Dump\n" if dump else "", waittxs=waittxs)
     path = os.path.join(c.scratch, "bfs-%s.dump" % tag)
     r = c.tlc("node", "MCbfs.cfg", module="MCgen", files=files, dump_to=path, timeout=timeout, tag=tag)
     if r.violated:
